@@ -29,6 +29,7 @@ Core Lean only; structurally recursive (kernel-evaluable).
 -/
 import NitroVerif.Gql.Schema
 import NitroVerif.Gen.ErrKinds
+import NitroVerif.Spec.IntLit
 namespace NitroVerif.Valid
 open NitroVerif.Gql
 
@@ -165,14 +166,16 @@ def stripNonNull : GType → GType
 def isBuiltinScalar (n : Name) : Bool :=
   n == "Int" || n == "Float" || n == "String" || n == "Boolean" || n == "ID"
 
-/-- a literal that is neither a variable, `null`, a list nor an object, against a named type -/
+/-- a literal that is neither a variable, `null`, a list nor an object, against a named type.
+    `Int` (§3.5.1 input coercion): an integer literal whose value lies in `[-2^31, 2^31)` (`Spec/IntLit.lean`);
+    `Float` (§3.5.2) and `ID` (§3.5.5) accept an integer literal of any size -/
 def leafCoercible (S : Schema) (v : Value) (n : Name) : Bool :=
   match S.typeDef? n with
   | none => false
   | some td =>
     match td.kind with
     | .scalar =>
-      if n == "Int" then (match v with | .int .. => true | _ => false)
+      if n == "Int" then (match v with | .int s _ => SpecInt.intTextInRange s | _ => false)
       else if n == "Float" then (match v with | .int .. => true | .float .. => true | _ => false)
       else if n == "String" then (match v with | .str .. => true | _ => false)
       else if n == "Boolean" then (match v with | .bool .. => true | _ => false)
